@@ -54,3 +54,7 @@ pub uninterp spec fn unit01(x: f64) -> bool;
 pub axiom fn ieee_f1_scale_in_range(x: f64, n: usize)
     requires unit01(x), 1 <= n, n <= 0x20_0000_0000_0000,
     ensures f64_as_usize(x.mul_spec(usize_as_f64(n))) < n;
+pub uninterp spec fn usize_as_f32(n: usize) -> f32;
+pub trait VxAsF32: Sized { spec fn as_f32_spec(self) -> f32; fn vx_to_f32(self) -> (r: f32) ensures r == self.as_f32_spec(); }
+impl VxAsF32 for usize { open spec fn as_f32_spec(self) -> f32 { usize_as_f32(self) } #[verifier::external_body] fn vx_to_f32(self) -> (r: f32) { self as f32 } }
+pub fn vx_as_f32<T: VxAsF32>(x: T) -> (r: f32) ensures r == x.as_f32_spec() { x.vx_to_f32() }
